@@ -72,6 +72,12 @@ impl K8s {
             let _ = w.send(WatchMsg::Close);
         }
     }
+    /// a server-side failure of the watch that is not "410 Gone": an ERROR event, then the stream ends
+    fn watch_error(&mut self) {
+        let line = json!({"type": "ERROR", "object": {"kind": "Status", "apiVersion": "v1", "metadata": {}, "status": "Failure", "message": "etcdserver: request timed out", "reason": "InternalError", "code": 500}}).to_string();
+        self.watchers.retain(|w| w.send(WatchMsg::Line(line.clone())).is_ok());
+        self.close_watches();
+    }
     fn gone(&mut self) {
         let line = json!({"type": "ERROR", "object": {"kind": "Status", "apiVersion": "v1", "metadata": {}, "status": "Failure", "message": "too old resource version", "reason": "Expired", "code": 410}}).to_string();
         self.watchers.retain(|w| w.send(WatchMsg::Line(line.clone())).is_ok());
@@ -127,17 +133,40 @@ async fn serve(state: Arc<Mutex<K8s>>) -> SocketAddr {
                             return;
                         }
                         loop {
-                            match rx.recv().await {
-                                Some(WatchMsg::Line(l)) => {
-                                    let chunk = format!("{:x}\r\n{l}\n\r\n", l.len() + 1);
-                                    if sock.write_all(chunk.as_bytes()).await.is_err() {
-                                        return;
+                            // everything that is queued at this moment goes out in ONE write (events emitted under one
+                            // lock of the mock's state become readable for the client at the same instant)
+                            let mut lines = String::new();
+                            let mut close = false;
+                            let mut next = rx.recv().await;
+                            loop {
+                                match next {
+                                    Some(WatchMsg::Line(l)) => {
+                                        lines.push_str(&l);
+                                        lines.push('\n');
+                                    }
+                                    Some(WatchMsg::Close) | None => {
+                                        close = true;
+                                        break;
                                     }
                                 }
-                                Some(WatchMsg::Close) | None => {
-                                    let _ = sock.write_all(b"0\r\n\r\n").await;
-                                    break;
+                                match rx.try_recv() {
+                                    Ok(m) => next = Some(m),
+                                    Err(_) => break,
                                 }
+                            }
+                            // one HTTP chunk holding all lines, and the end of the stream in the same write
+                            let mut out: Vec<u8> = vec![];
+                            if !lines.is_empty() {
+                                out.extend_from_slice(format!("{:x}\r\n{lines}\r\n", lines.len()).as_bytes());
+                            }
+                            if close {
+                                out.extend_from_slice(b"0\r\n\r\n");
+                            }
+                            if sock.write_all(&out).await.is_err() {
+                                return;
+                            }
+                            if close {
+                                break;
                             }
                         }
                         // the connection stays usable for the next request
@@ -253,6 +282,12 @@ pub enum Ev {
     /// 410 Gone; the paginated re-list is cut off after its first page (expired continue token) and the
     /// named objects disappear before the list is retried
     GoneRelistInterrupted { delete: Vec<String> },
+    /// the watch fails on the server side (ERROR event with code 500, stream closed)
+    WatchError,
+    /// DELETED and the ERROR event become readable for the client in the same write
+    DeleteThenWatchError { name: String },
+    /// ADDED/MODIFIED and the ERROR event become readable for the client in the same write
+    ApplyThenWatchError { name: String, shape: String },
 }
 
 #[derive(Clone, Debug, Serialize, Deserialize, PartialEq)]
@@ -382,9 +417,18 @@ fn run_history(spec: &Spec, counters: &(AtomicU64, AtomicU64)) -> Vec<(String, S
                         st.interrupt_continue = Some(delete.clone());
                         st.gone();
                     }
+                    Ev::WatchError => st.watch_error(),
+                    Ev::DeleteThenWatchError { name } => {
+                        st.delete(name);
+                        st.watch_error();
+                    }
+                    Ev::ApplyThenWatchError { name, shape } => {
+                        st.apply(name, game_server(name, shape));
+                        st.watch_error();
+                    }
                 }
             }
-            if matches!(ev, Ev::CloseWatch | Ev::Gone | Ev::GoneAndDelete { .. } | Ev::GoneAndApply { .. } | Ev::GoneRelistInterrupted { .. }) {
+            if matches!(ev, Ev::CloseWatch | Ev::Gone | Ev::GoneAndDelete { .. } | Ev::GoneAndApply { .. } | Ev::GoneRelistInterrupted { .. } | Ev::WatchError | Ev::DeleteThenWatchError { .. } | Ev::ApplyThenWatchError { .. }) {
                 // wait until the adapter has opened a new watch before the marker is toggled
                 let before = state.lock().unwrap().watches;
                 let t0 = Instant::now();
@@ -545,6 +589,27 @@ pub fn run(cli: Cli) -> ! {
             specs.push(Spec { initial: initials[1].clone(), history: h, paged: false });
         }
     }
+    // a watch that fails on the server side, alone and in the same write as the event before it
+    {
+        let a = |s: &str| Ev::Apply { name: "a".into(), shape: s.into() };
+        let two: Vec<(String, String)> = vec![("a".into(), "ready".into()), ("b".into(), "allocated".into())];
+        let firsts = vec![
+            Ev::WatchError,
+            Ev::DeleteThenWatchError { name: "a".into() },
+            Ev::ApplyThenWatchError { name: "a".into(), shape: "shutdown".into() },
+            Ev::ApplyThenWatchError { name: "a".into(), shape: "ready-moved".into() },
+            Ev::ApplyThenWatchError { name: "c".into(), shape: "ready".into() },
+        ];
+        for f in &firsts {
+            specs.push(Spec { initial: two.clone(), history: vec![f.clone()], paged: false });
+            if thorough {
+                for then in [a("ready"), Ev::Delete { name: "b".into() }, Ev::Bookmark, Ev::CloseWatch] {
+                    specs.push(Spec { initial: two.clone(), history: vec![f.clone(), then.clone()], paged: false });
+                    specs.push(Spec { initial: two.clone(), history: vec![then, f.clone()], paged: false });
+                }
+            }
+        }
+    }
     // paginated lists: every depth-1/2 history again with pages of two objects, and re-lists that are cut
     // off after their first page while objects of that page disappear
     let five: Vec<(String, String)> = ["a", "b", "c", "d", "e"].iter().map(|n| (n.to_string(), "ready".to_string())).collect();
@@ -577,7 +642,7 @@ pub fn run(cli: Cli) -> ! {
     rep.set("histories", json!(specs.len()));
     rep.set("list_requests_served", json!(counters.1.load(Ordering::Relaxed)));
     rep.set("exhaustive", json!(true));
-    rep.set("rule", json!("all maximal histories up to the depth over 20 events (ADDED/MODIFIED of two game servers in 6 shapes, DELETED, BOOKMARK, watch closed cleanly, 410 Gone followed by a re-list, 410 Gone with an object deleted / changed while the watch is down, 410 Gone whose paginated re-list is cut off after the first page while listed objects disappear), pruned to events enabled in the mock's current truth, from 3 initial LIST contents; after every event a marker object is toggled and awaited (barrier) and the snapshot compared with the reference map. quick: depth 2 without 410 plus 10 selected histories with deletions, re-lists and changes during a watch outage; thorough: depth 3 and depth 4 without 410, every depth-2 history with one 410, paginated depth-2 histories."));
+    rep.set("rule", json!("all maximal histories up to the depth over 20 events (ADDED/MODIFIED of two game servers in 6 shapes, DELETED, BOOKMARK, watch closed cleanly, 410 Gone followed by a re-list, 410 Gone with an object deleted / changed while the watch is down, 410 Gone whose paginated re-list is cut off after the first page while listed objects disappear), plus a server-side watch failure (ERROR 500) alone and written together with the DELETED / ADDED / MODIFIED before it, pruned to events enabled in the mock's current truth, from 3 initial LIST contents; after every event a marker object is toggled and awaited (barrier) and the snapshot compared with the reference map. quick: depth 2 without 410 plus 10 selected histories with deletions, re-lists and changes during a watch outage; thorough: depth 3 and depth 4 without 410, every depth-2 history with one 410, paginated depth-2 histories."));
     rep.sample(json!({"spec": specs[0]}));
     rep.sample(json!({"spec": Spec { initial: vec![("a".into(), "ready".into())], history: vec![Ev::Delete { name: "a".into() }], paged: false }, "expect": "'a' is no longer offered"}));
     rep.assume("the Kubernetes API is a hand-written HTTP/1.1 mock (LIST + chunked WATCH); the kube client, watcher and backoff run unmodified; OS timing only enters through 5-8 s deadlines on barriers");
